@@ -12,9 +12,7 @@ namespace Ggql.Intro
 /-- the arms of the pinned tree where it departs from the specification -/
 def pinnedDev : GoT → MF → Option Arm
   | .object, .name => some .nameOrSchema                     -- the nameless schema object says "schema": never reachable from a named type
-  | .list, .name | .nonNull, .name => some .wrapperName      -- D53: wrappers carry a name
-  | .list, .description => some (.const "LIST")              -- D53: … and a description
-  | .nonNull, .description => some (.const "NON_NULL")
+  | .list, .name | .nonNull, .name => some .wrapperName      -- D53: wrappers carry a name (the suite expects `"name": "[Song]"`); their description is null now
   | .arg, .defaultValue | .inputField, .defaultValue => some .defaultMixed   -- D52 (narrowed): string defaults are given without their quotes (the suite expects `"defaultValue": "Who"`); other defaults as GraphQL text
   | _, _ => none
 
